@@ -60,6 +60,10 @@ def nets(n, seed, kinds):
         out['dir'] = G.weigh(G.er(n, .6, True, seed + 1), 'real', seed + 1, False)
     if 'signed' in kinds:
         out['signed'] = G.weigh(G.er_connected(n, .7, seed + 2), 'signed', seed + 2, True)
+        if seed % 5 == 2:
+            out['signed'] = np.abs(out['signed'])      # no negative weight
+        elif seed % 5 == 3:
+            out['signed'] = -np.abs(out['signed'])     # no positive weight
         if seed % 3 == 1:   # magnitudes over 12 orders
             out['signed'] = out['signed'] * 10.0 ** np.random.RandomState(seed).uniform(-12, 0, size=out['signed'].shape)
             out['signed'] = np.triu(out['signed'], 1) + np.triu(out['signed'], 1).T
